@@ -10,7 +10,7 @@ ID=$(echo "$id" | tr a-z A-Z)
 checks="${*:-$ID}"
 wt=/tmp/seed/$id
 out=$wt/out
-dst=/verif/seeded/$ID-m$n
+dst=/verif/seeded/$ID-m${SEED_AS:-$n}   # SEED_AS=<k>: store the agent's m<n> as seeded/<ID>-m<k>
 [ -f "$out/m$n.diff" ] || { echo "no $out/m$n.diff"; exit 2; }
 git -C $wt checkout -q -- src nextflow 2>/dev/null
 git -C $wt apply "$out/m$n.diff" || { echo "patch does not apply"; exit 2; }
